@@ -59,17 +59,53 @@ def h_lost(tier):
                                                              maxns=[None, 1], lost=True, fails=True), **_HO)]
 
 
+KS = "harness.k_slurm"
+KR = "harness.k_reports"
+
+
+def c18(tier):
+    obs = [
+        _ob("K-retry", KS, "k_retry", dict(max_retries=6)),
+        _ob("K-script", KS, "k_script", {}),
+        _ob("K-status/focus", KS, "k_status", dict(lines=0, ws="full")),
+        _ob("K-status/multi", KS, "k_status", dict(lines=2, ws="min")),
+        _ob("K-sbatch", KS, "k_sbatch", {}),
+        _ob("E2-status-table", "harness.q_slurm", "q_status_table", {}, kind="direct", replay=("harness.q_slurm", "replay_direct")),
+        _ob("E2-sbatch-regex", "harness.q_slurm", "q_sbatch_regex", {}, kind="direct", replay=("harness.q_slurm", "replay_direct")),
+    ]
+    if tier == "thorough":
+        obs.append(_ob("K-status/multi-full", KS, "k_status", dict(lines=2, ws="full")))
+    return obs
+
+
+def k_tally(tier):
+    return [_ob("K-tally", KR, "k_tally", dict(N=3 if tier == "quick" else 4))]
+
+
+def c20(tier):
+    if tier == "quick":
+        return [_ob("K-stats", KR, "k_stats", dict(samples=3)),
+                _ob("K-stats/wide", KR, "k_stats", dict(samples=2, wide=True)),
+                _ob("K-events", KR, "k_events", dict(max_events=2))] + k_tally(tier)
+    return [_ob("K-stats", KR, "k_stats", dict(samples=4)),
+            _ob("K-stats/wide", KR, "k_stats", dict(samples=2, wide=True)),
+            _ob("K-events", KR, "k_events", dict(max_events=2)),
+            _ob("K-events/3", KR, "k_events", dict(max_events=3, nstamps=3, ndata=2))] + k_tally(tier)
+
+
 def obligations(prop, tier):
     table = {
         "C01": lambda t: k_batch(t) + h_submit(t),
         "C02": lambda t: k_batch(t) + h_submit(t),
-        "C03": h_submit,
+        "C03": lambda t: h_submit(t) + k_tally(t),
         "C04": h_submit,
         "C05": lambda t: k_batch(t) + h_submit(t),
         "C06": lambda t: k_batch(t) + h_submit(t),
         "C07": lambda t: k_batch(t) + h_submit(t) + h_dry(t),
         "C09": h_submit,
         "C12": h_lost,
+        "C18": c18,
+        "C20": c20,
     }
     f = table.get(prop)
     return f(tier) if f else []
